@@ -28,7 +28,8 @@ CONSTANTS
     AtomicCreate,   \* TRUE: insert and attach of CreateSub are one step (a design WITHOUT the race)
     AtomicDelete,   \* TRUE: begin / remove / end of DeleteSub are one step
     AttachChecksDeleting,   \* TRUE: the topic refuses to attach a subscription that started being deleted
-    UnregisterFirst         \* TRUE: a deletion leaves the push registry BEFORE it leaves the manager's map
+    UnregisterFirst,        \* TRUE: a deletion leaves the push registry BEFORE it leaves the manager's map
+    MaxExpiries             \* how many expiry turns may happen
 
 VARIABLES
     pc,         \* Procs -> program counter
@@ -178,6 +179,27 @@ StepAck(p) ==
           /\ S' = [S EXCEPT ![h[p].s] = IF @.st = "live" THEN SubAfterAck(@, Op[p].acks) ELSE @]
           /\ UNCHANGED <<now, tmap, smap, T, torder, sorder, reg, pubs, h>> /\ SetPc(p, "done")
 
+\* Nack (ModifyAckDeadline 0) of a set of ack ids: they go back to the queue.
+StepNack(p) ==
+    /\ Op[p].op = "Nack"
+    /\ \/ /\ pc[p] = "start"
+          /\ IF Op[p].sub \in DOMAIN smap
+             THEN h' = [h EXCEPT ![p].s = smap[Op[p].sub]] /\ SetPc(p, "turn")
+             ELSE SetPc(p, "done") /\ UNCHANGED h
+          /\ UNCHANGED coreVars
+       \/ /\ pc[p] = "turn"
+          /\ LET mods == SetToSeq({[ack |-> a, dl |-> None, lo |-> None, hi |-> None] : a \in Op[p].acks}) IN
+             S' = [S EXCEPT ![h[p].s] = IF @.st = "live" THEN SubAfterMods(@, mods) ELSE @]
+          /\ UNCHANGED <<now, tmap, smap, T, torder, sorder, reg, pubs, h>> /\ SetPc(p, "done")
+
+\* Time passes and every delivery of a live subscription expires at once (the expiry turn of its
+\* actor); at most MaxExpiries times.
+ActorExpire(si) ==
+    /\ S[si].st = "live" /\ S[si].lease # Empty /\ now < MaxExpiries * (D + 1)
+    /\ now' = now + D + 1
+    /\ S' = [S EXCEPT ![si] = SubAfterExpire(@, SetToSeq(DOMAIN @.lease))]
+    /\ UNCHANGED <<tmap, smap, T, torder, sorder, reg, pubs, pc, h>>
+
 \* A subscription actor processes the oldest batch in its mailbox.
 ActorPost(si) ==
     /\ S[si].inbox # <<>>
@@ -186,8 +208,8 @@ ActorPost(si) ==
 
 Next ==
     \/ \E p \in Procs : StepCreateTopic(p) \/ StepDeleteTopic(p) \/ StepCreateSub(p) \/ StepDeleteSub(p)
-                        \/ StepPublish(p) \/ StepPull(p) \/ StepAck(p)
-    \/ \E si \in DOMAIN S : ActorPost(si)
+                        \/ StepPublish(p) \/ StepPull(p) \/ StepAck(p) \/ StepNack(p)
+    \/ \E si \in DOMAIN S : ActorPost(si) \/ ActorExpire(si)
 
 Spec == Init /\ [][Next]_vars
 
